@@ -91,6 +91,19 @@ def lean_phase(ctx: Ctx, status, prop_modules, kernels=(), extra_modules=(), gen
                 ctx.obligations[t] = False
                 ctx.fail("audit", f"{t} depends on disallowed axioms {sorted(extra)}", {"theorem": t}, False,
                          "obligation")
+    if ctx.tier == "thorough" and not any(f.kind == "obligation" for f in ctx.failures):
+        # independent re-check of the compiled property modules by leanchecker
+        try:
+            with common.LakeLock():
+                p = subprocess.run(["lake", "env", "leanchecker"] + list(prop_modules), cwd=LEAN, capture_output=True,
+                                   text=True, timeout=3000)
+            ctx.extra["leanchecker"] = {"modules": list(prop_modules), "exit": p.returncode,
+                                        "tail": (p.stdout + p.stderr)[-300:]}
+            if p.returncode != 0:
+                ctx.fail("audit", "leanchecker rejects " + ", ".join(prop_modules) + ": " + (p.stdout + p.stderr)[-300:],
+                         {"modules": list(prop_modules)}, False, "obligation")
+        except subprocess.TimeoutExpired:
+            ctx.note("leanchecker timed out (not counted)")
     hits = common.grep_forbidden()
     if hits:
         ctx.fail("audit", "forbidden constructs in lean/: " + "; ".join(hits[:5]), {"hits": hits}, False, "obligation")
